@@ -221,14 +221,14 @@ int main(int argc, char **argv)
 	W.hooks.on_sanitizer = on_san;
 	ops[0] = &s_base32_ops; ops[1] = &s_base64_ops; ops[2] = &s_base64u_ops; ops[3] = &s_base128_ops;
 	xp_init("C07", a.tier, 1024, a.budget_s);
+	int rj = a.replay ? xp_load_replay(a.replay) : -1;      /* before the calibration: its violations replay too */
 	for (int k = 0; k < 4; k++)
 		if (!ref_calibrate(k, ops[k]->encode)) {
 			char sig[80]; snprintf(sig, sizeof sig, "C07:%s:alphabet-not-documented-class", cname[k]);
 			xp_violation(sig, "the 2^bits symbols are not a bijection onto the documented character class");
 		}
 	if (a.replay) {
-		int j = xp_load_replay(a.replay);
-		job(j);
+		job(rj);
 		return 0;
 	}
 	hc_quiet();
